@@ -8,6 +8,8 @@ package main
 import (
 	"fmt"
 	"math/big"
+	"sort"
+	"strings"
 	"testing"
 
 	"pgregory.net/rapid"
@@ -91,6 +93,21 @@ func vGenScenario(t *rapid.T, o vScenOpts) vScenario {
 				umax = o.PathMax
 			}
 			nm = vGenPath(t, usegs, umax, "unk")
+			// one unknown food in three is a text-sibling of the category of another food: "dairy/milkshake" next to
+			// "dairy/milk/whole" (the category text of the other name, continued without a separator)
+			if rapid.IntRange(0, 2).Draw(t, "unk.sibling") == 0 {
+				var deep []string
+				for n := range taken {
+					if strings.Count(n, "/") >= 2 {
+						deep = append(deep, n)
+					}
+				}
+				sort.Strings(deep)
+				if len(deep) > 0 {
+					src := deep[rapid.IntRange(0, len(deep)-1).Draw(t, "unk.siblingof")]
+					nm = src[:strings.LastIndex(src, "/")] + []string{"x", "xy", " b", "shake"}[rapid.IntRange(0, 3).Draw(t, "unk.suffix")]
+				}
+			}
 		} else {
 			nm = vGenName(t, false, "unk")
 		}
@@ -122,7 +139,7 @@ func vGenScenario(t *rapid.T, o vScenOpts) vScenario {
 }
 
 // vAddRelatedEntries: one scenario in six gets a few log entries whose *relation to each other* matters rather than
-// their own shape: (a) two foods whose name and quantity spell the same text when glued together in either order
+// their own shape: (c) a food with long element names that coincide once shortened, (a) two foods whose name and quantity spell the same text when glued together in either order
 // ("gl~b1: 2" / "gl~b: 12", "gl~c: 15" / "5gl~c: 1"), (b) in decimal mode two large contributions to one element that
 // cancel up to a few cents (1234567890.75 and -1234567890). The recipes they need are appended to the book.
 func vAddRelatedEntries(t *rapid.T, s *vScenario) {
@@ -146,7 +163,12 @@ func vAddRelatedEntries(t *rapid.T, s *vScenario) {
 		s.Log.Recs[di].Lines = append(s.Log.Recs[di].Lines, vLine{Kind: vkEntry, Name: name, Num: qty, L: plain})
 		s.Log.NoFinalNL = false
 	}
-	switch kind := rapid.IntRange(0, 2).Draw(t, "related.kind"); {
+	switch kind := rapid.IntRange(0, 3).Draw(t, "related.kind"); {
+	case kind == 3: // two long element names that look alike once shortened in the middle (same first and last ten runes)
+		mid := rapid.IntRange(1, 8).Draw(t, "related.mid")
+		addRecipe("lt~food", [2]string{fmt.Sprintf("supplement/omega-%d/capsule/1000mg~", mid), "2"}, [2]string{fmt.Sprintf("supplement/omega-%d/capsule/1000mg~", mid+1), "3"},
+			[2]string{fmt.Sprintf("supplement/omega-%d%d/capsule/1000mg~", mid, mid), "1"})
+		logIt("lt~food", "1", "related.d1")
 	case kind == 0: // name then quantity glued: "gl~b1"+"2" = "gl~b"+"12"
 		addRecipe("gl~b", [2]string{e, "2"})
 		addRecipe("gl~b1", [2]string{e, "3"}, [2]string{e2, "1"})
